@@ -6,7 +6,7 @@
 From Coq Require Import String.
 From Coq Require Import List Bool Arith NArith ZArith.
 Import ListNotations.
-Require Import Alloc Str IpText Rx RxFacts G_rx G_juniper TextModel TextProofs ValueProofs.
+Require Import Alloc Str IpText Rx RxFacts G_rx G_juniper TextModel TextProofs ValueProofs Findings.
 
 Theorem C07_allocator_outputs_independent_of_secret_content :
   forall (key : Type) (keq : key -> key -> bool), (forall a b, keq a b = true <-> a = b) ->
@@ -37,6 +37,16 @@ Theorem C07_generated_line_patterns_consume_text :
   forallb (fun g => forallb (fun it => negb (nullable (fst (fst it)))) g) PWD_REGEXES = true.
 Proof. vm_compute. reflexivity. Qed.
 
+(* known findings D11-D13: the full statement is false of the faithful model on these witnesses (replayed on the implementation by the check) *)
+Theorem C07_numeric_password_before_a_word_survives_refuted :
+  exists out lk, rmi (lit "password 12345 foo") = Done (out, lk) /\ out = lit "password 12345 netconanRemoved0".
+Proof. exact numeric_password_followed_by_a_word_survives_refuted. Qed.
+Theorem C07_hash_after_a_captured_reserved_word_survives_refuted :
+  exists line, rmi line = Done (line, []) /\ line = lit "enable secret level 15 5 $1$abcd$0rN7R8PKwC30AsCGA77vy.".
+Proof. exact hash_after_reserved_word_capture_survives_refuted. Qed.
+
+Print Assumptions C07_numeric_password_before_a_word_survives_refuted.
+Print Assumptions C07_hash_after_a_captured_reserved_word_survives_refuted.
 Print Assumptions C07_allocator_outputs_independent_of_secret_content.
 Print Assumptions C07_fresh_replacement_depends_only_on_class_and_counter.
 Print Assumptions C07_generated_line_patterns_consume_text.
